@@ -500,6 +500,10 @@ type renderVector struct {
 	Tags    []string        `json:"tags"`
 	Evs     [][]interface{} `json:"evs"`
 	Globals AVMap           `json:"globals"`
+	// a second execution of the same compiled template with another context, after the first (which may have failed)
+	Ctx2 AVMap  `json:"ctx2"`
+	Out2 []AV   `json:"out2"`
+	Err2 string `json:"err2"`
 }
 
 func buildContext(c AVMap) pongo2.Context {
@@ -576,6 +580,15 @@ func renderVec(v *renderVector) (src string, got outcome, want string, wantErr b
 		}
 		if again := execute(tpl, ctx); again.Panic != "" || (again.Err == "") != (got.Err == "") || again.Out != got.Out {
 			problem = fmt.Sprintf("a second execution of the compiled template rendered %q %s, the first %q %s", again.Out, firstLine(again.Err+again.Panic), got.Out, firstLine(got.Err))
+			return
+		}
+		if v.Ctx2 != nil {
+			o2 := execute(tpl, buildContext(v.Ctx2))
+			want2 := piecesText(v.Out2)
+			if o2.Panic != "" || (o2.Err == "") != (v.Err2 == "") || (v.Err2 == "" && o2.Out != want2) {
+				problem = fmt.Sprintf("executed again with another context (after an execution that ended with %q) it rendered %q %s, specification %q %s",
+					firstLine(got.Err), o2.Out, firstLine(o2.Err+o2.Panic), want2, v.Err2)
+			}
 		}
 	}()
 	if snapshotCtx(ctx) != before {
